@@ -420,6 +420,28 @@ def find_loops(body):
         kw = mo.group(1)
         # `for` inside `impl X for Y` / HRTB cannot occur in a body; closures `for<'a>` rare
         k = mo.end()
+        in_pos = None
+        if kw == 'for':
+            # the pattern may contain braces (`for Struct { a, b } in ..`): look for ` in ` at bracket depth 0 first
+            dd = 0
+            kk = k
+            while kk < len(m):
+                ch = m[kk]
+                if ch in '([{':
+                    dd += 1
+                elif ch in ')]}':
+                    dd -= 1
+                    if dd < 0:
+                        break
+                elif ch == ';' and dd == 0:
+                    break
+                elif dd == 0 and m[kk:kk + 2] == 'in' and re.match(r'\bin\b', m[kk - 1:kk + 3].replace('\n', ' ')[1:]) and not (m[kk - 1].isalnum() or m[kk - 1] == '_') and not (m[kk + 2].isalnum() or m[kk + 2] == '_'):
+                    in_pos = kk + 2
+                    break
+                kk += 1
+            if in_pos is None:
+                continue
+            k = in_pos
         depth = 0
         ok = True
         while k < len(m):
@@ -441,10 +463,7 @@ def find_loops(body):
             continue
         d = {'kind': kw, 'kw': mo.start(1), 'start': mo.start(), 'brace': k, 'end': match_close(m, k)}
         if kw == 'for':
-            mi = re.search(r'\bin\b', m[mo.end():k])
-            if not mi:
-                continue
-            d['in_pos'] = mo.end() + mi.end()
+            d['in_pos'] = in_pos
         loops.append(d)
     return loops
 
